@@ -98,6 +98,15 @@ async def eval_state(st, idx, sd, acc):
         acc.distinct.add(hash(("eval", expr, tuple(sorted(rc.items())), tuple(sorted(fc.items())))))
     ahb.set_cer_values(rc=rc, fc=fc, hints=hints)
     try:
+        if idx % 4 == 0:
+            # fault history: refused near misses of the same string (leading blank, a key split by a blank, sharp s, full-width characters) were handled before
+            from common import near_misses
+            for nm in near_misses(expr):
+                try:
+                    await evaluate_ahb_expression_tree(await parse_expression_including_unresolved_subexpressions(nm))
+                except BaseException:  # noqa: BLE001 - not judged here
+                    pass
+            acc.c("evaluations_after_refused_near_misses")
         tree = await parse_expression_including_unresolved_subexpressions(expr)
         r = await evaluate_ahb_expression_tree(tree)
     except BaseException as e:  # pylint:disable=broad-except
